@@ -89,7 +89,7 @@ def check(case):
 REQUIRED_LABELS = ['positivity/ratio:>=100', 'positivity/mach:>=1', 'positivity/bc:per', 'positivity/bc:sym', 'positivity/euler1d/hlle', 'positivity/euler1d/hllc', 'positivity/shallowwater/rusanov', 'positivity/shallowwater/hll']
 
 SUBCHECKS = [
-    SubCheck("positivity", check, strategy=strat, examples={"quick": 400, "thorough": 2500}, shards={"quick": 8, "thorough": 16}),
+    SubCheck("positivity", check, strategy=strat, examples={"quick": 800, "thorough": 2500}, shards={"quick": 8, "thorough": 16}),
 ]
 
 META = dict(
